@@ -1,5 +1,6 @@
 // Consistency of the dependency graph (C13), read through the guarded friend accessor.
 #pragma once
+#include <map>
 #include <set>
 #include <string>
 #include <vector>
@@ -18,5 +19,13 @@ struct DepsAccess {
 
 // returns "" if consistent, else a description; `sig` gets a coarse signature
 std::string check_deps(colvarmodule *m, std::string &sig, long *objects_checked = nullptr);
+
+// enabled features of one object as "a;b;c;"
+std::string enabled_features(colvardeps *o);
+// enabled features of every variable and bias of the module, keyed "variable <name>" / "bias <name>"
+std::map<std::string, std::string> module_features(colvarmodule *m);
+// first difference between two such maps over the keys of `twin` (diagnostic only); returns false if none.
+// A capability known to change forces by itself (hide_Jacobian_force) is named in preference to the others.
+bool feature_difference(std::map<std::string, std::string> const &test, std::map<std::string, std::string> const &twin, std::string &sig, std::string &text);
 
 }  // namespace sim
